@@ -74,7 +74,7 @@ fn expect<'a>(h: &'a [u8], n: &[u8]) -> Expect<'a> {
 
 /// all eight byte functions through one pattern kind
 macro_rules! bytes_kind {
-    ($kind:literal, $h:expr, $n:expr, $pat:expr, $e:expr) => {{
+    ($kind:expr, $h:expr, $n:expr, $pat:expr, $e:expr) => {{
         let (h, n, e): (&[u8], &[u8], &Expect) = ($h, $n, $e);
         let empty = n.is_empty();
         let k = ks::bytes_find(h, $pat);
@@ -138,49 +138,24 @@ macro_rules! str_kind {
     }};
 }
 
+macro_rules! array_kinds {
+    ($h:expr, $n:expr, $e:expr; $($N:literal)*) => {
+        match $n.len() {
+            $($N => {
+                let a: [u8; $N] = $n.try_into().unwrap();
+                bytes_kind!(concat!("[u8;", stringify!($N), "]"), $h, $n, &a, $e)
+            })*
+            _ => {}
+        }
+    };
+}
+
 pub fn run_case(c: &Case) -> Result<(), String> {
     let (h, n): (&[u8], &[u8]) = (&c.hay, &c.needle);
     let e = expect(h, n);
     bytes_kind!("[u8]", h, n, n, &e);
-    match n.len() {
-        0 => {
-            let a: [u8; 0] = [];
-            bytes_kind!("[u8;0]", h, n, &a, &e)
-        }
-        1 => {
-            let a: [u8; 1] = n.try_into().unwrap();
-            bytes_kind!("[u8;1]", h, n, &a, &e)
-        }
-        2 => {
-            let a: [u8; 2] = n.try_into().unwrap();
-            bytes_kind!("[u8;2]", h, n, &a, &e)
-        }
-        3 => {
-            let a: [u8; 3] = n.try_into().unwrap();
-            bytes_kind!("[u8;3]", h, n, &a, &e)
-        }
-        4 => {
-            let a: [u8; 4] = n.try_into().unwrap();
-            bytes_kind!("[u8;4]", h, n, &a, &e)
-        }
-        8 => {
-            let a: [u8; 8] = n.try_into().unwrap();
-            bytes_kind!("[u8;8]", h, n, &a, &e)
-        }
-        9 => {
-            let a: [u8; 9] = n.try_into().unwrap();
-            bytes_kind!("[u8;9]", h, n, &a, &e)
-        }
-        16 => {
-            let a: [u8; 16] = n.try_into().unwrap();
-            bytes_kind!("[u8;16]", h, n, &a, &e)
-        }
-        24 => {
-            let a: [u8; 24] = n.try_into().unwrap();
-            bytes_kind!("[u8;24]", h, n, &a, &e)
-        }
-        _ => {}
-    }
+    // the [u8; N] pattern kind for every N up to 48 (N is a const parameter of the searched function)
+    array_kinds!(h, n, &e; 0 1 2 3 4 5 6 7 8 9 10 11 12 13 14 15 16 17 18 19 20 21 22 23 24 25 26 27 28 29 30 31 32 33 34 35 36 37 38 39 40 41 42 43 44 45 46 47 48);
     if let Ok(ns) = std::str::from_utf8(n) {
         bytes_kind!("str", h, n, ns, &e);
         let mut cs = ns.chars();
